@@ -419,6 +419,15 @@ func (b *Reader) Skip(n int) {
 	_, _ = b.buf.Seek(int64(n), io.SeekCurrent)
 }
 
+// skipN skips n bytes of a field that is not wanted; unlike Skip it fails when the input ends before.
+func (b *Reader) skipN(n int64) error {
+	if n < 0 || n > int64(b.buf.Len()) {
+		return io.ErrUnexpectedEOF
+	}
+	_, err := b.buf.Seek(n, io.SeekCurrent)
+	return err
+}
+
 func (b *Reader) skipFieldMap() error {
 	var length int32
 	err := b.ReadInt32(&length, 0, true)
@@ -426,12 +435,17 @@ func (b *Reader) skipFieldMap() error {
 		return err
 	}
 
-	for i := int32(0); i < length*2; i++ {
+	if length < 0 {
+		return fmt.Errorf("invalid map length %d", length)
+	}
+	for i := int64(0); i < int64(length)*2; i++ {
 		tyCur, _, err := b.readHead()
 		if err != nil {
 			return err
 		}
-		_ = b.skipField(tyCur)
+		if err = b.skipField(tyCur); err != nil {
+			return err
+		}
 	}
 	return nil
 }
@@ -441,12 +455,17 @@ func (b *Reader) skipFieldList() error {
 	if err != nil {
 		return err
 	}
+	if length < 0 {
+		return fmt.Errorf("invalid list length %d", length)
+	}
 	for i := int32(0); i < length; i++ {
 		tyCur, _, err := b.readHead()
 		if err != nil {
 			return err
 		}
-		_ = b.skipField(tyCur)
+		if err = b.skipField(tyCur); err != nil {
+			return err
+		}
 	}
 	return nil
 }
@@ -464,8 +483,10 @@ func (b *Reader) skipFieldSimpleList() error {
 		return err
 	}
 
-	b.Skip(int(length))
-	return nil
+	if length < 0 {
+		return fmt.Errorf("invalid simple list length %d", length)
+	}
+	return b.skipN(int64(length))
 }
 
 func (b *Reader) skipField(ty byte) error {
@@ -478,31 +499,30 @@ func (b *Reader) skipField(ty byte) error {
 	}
 	switch ty {
 	case BYTE:
-		b.Skip(1)
+		return b.skipN(1)
 	case SHORT:
-		b.Skip(2)
+		return b.skipN(2)
 	case INT:
-		b.Skip(4)
+		return b.skipN(4)
 	case LONG:
-		b.Skip(8)
+		return b.skipN(8)
 	case FLOAT:
-		b.Skip(4)
+		return b.skipN(4)
 	case DOUBLE:
-		b.Skip(8)
+		return b.skipN(8)
 	case STRING1:
 		data, err := b.buf.ReadByte()
 		if err != nil {
 			return err
 		}
-		l := int(data)
-		b.Skip(l)
+		return b.skipN(int64(data))
 	case STRING4:
 		var l uint32
 		err := bReadU32(b.buf, &l)
 		if err != nil {
 			return err
 		}
-		b.Skip(int(l))
+		return b.skipN(int64(l))
 	case MAP:
 		err := b.skipFieldMap()
 		if err != nil {
@@ -524,6 +544,7 @@ func (b *Reader) skipField(ty byte) error {
 			return err
 		}
 	case StructEnd:
+		return fmt.Errorf("struct end where a field is expected")
 	case ZeroTag:
 	default:
 		return fmt.Errorf("invalid type")
@@ -539,12 +560,12 @@ func (b *Reader) SkipToStructEnd() error {
 			return err
 		}
 
+		if ty == StructEnd {
+			break
+		}
 		err = b.skipField(ty)
 		if err != nil {
 			return err
-		}
-		if ty == StructEnd {
-			break
 		}
 	}
 	return nil
